@@ -1,6 +1,181 @@
-/-! Driver entry for property C22 (stub: not implemented yet). -/
-namespace HeartwoodModel.Driver.C22
+import HeartwoodModel.Model.Crdt
+import HeartwoodModel.Driver.Util
+/-! Driver entry for C22.
 
-def run (_args : List String) : String := "unimplemented"
+Case: `<type> <A> <B> <C>` — three *construction scripts* for values of the named CRDT type (the same
+scripts the harness runs on the real `radicle-crdt` types). Output:
+
+    <a> <b> <c> <a∨b> <(a∨b)∨c> <bits>
+
+the canonical states of the three operands and of the two joins, and the bits
+`a==b, ab==ba, (ab)c==a(bc), aa==a, ab==a, abc==ab`.
+
+Script syntax (keys / clocks / values are `u8`, printed in decimal):
+
+* `max` `min`: `n` · `bool`: `0|1` · `unit`: `u` · `optmax`: `-|n` · `red`: `R|n` · `optred`: `-|R|n`
+* `regmax` `regmin` `regred` `regopt` (`LWWReg<T, u8>`): `v@c;v@c;…` — first is `new(v, c)`, the rest `set(v, c)`
+* `gmap` `gmapred` `gmapreg` (`GMap<u8, V>`): `-` or `k=V;k=V;…` — `insert(k, V)` in this order
+* `gset`: `-` or `k;k;…`
+* `lwwmap` `lwwmapred` (`LWWMap<u8, V, u8>`): `-` or ops `+k=v@c` (insert) / `!k@c` (remove)
+* `lwwset` (`LWWSet<u8, Lamport>`): `-` or ops `+k@c` / `!k@c`
+
+State syntax: scalars as above, `LWWReg` as `v@c`, `GMap` as sorted `k=V;…`, `GSet` as sorted `k;…`;
+`LWWMap`/`LWWSet` as sorted `k=v@c` / `+k@c` for visible keys and `k=-@c` / `!k@c` for tombstones with
+clock `c > 0` (a tombstone at the least clock cannot be told from an absent key through the API of the real
+type, which the harness uses to recover the hidden clocks; Rust's `==` does distinguish them and is
+compared through the bits). -/
+namespace HeartwoodModel.Driver.C22
+open HeartwoodModel.Crdt HeartwoodModel.Driver.Util
+
+class Wire (α : Type) where
+  build : String → Option α
+  render : α → String
+
+def byte? (s : String) : Option Nat :=
+  match nat? s with
+  | some n => if n < 256 then some n else none
+  | none => none
+
+def dropFirst (s : String) : String := String.ofList (s.toList.drop 1)
+
+def showList (parts : List String) : String := if parts.isEmpty then "-" else joinWith ";" parts
+
+instance : Wire (MaxV Nat) := ⟨fun s => (byte? s).map (⟨·⟩), fun m => toString m.val⟩
+instance : Wire (MinV Nat) := ⟨fun s => (byte? s).map (⟨·⟩), fun m => toString m.val⟩
+instance : Wire Bool := ⟨bool?, showBool⟩
+instance : Wire Unit := ⟨fun s => if s == "u" then some () else none, fun _ => "u"⟩
+
+instance [Wire α] : Wire (Option α) where
+  build s := if s == "-" then some none else (Wire.build s).map some
+  render
+    | none => "-"
+    | some a => Wire.render a
+
+instance : Wire (Redactable Nat) where
+  build s := if s == "R" then some .redacted else (byte? s).map .present
+  render
+    | .redacted => "R"
+    | .present n => toString n
+
+def parseVC [Wire T] (s : String) : Option (T × Nat) :=
+  match splitOn s '@' with
+  | [v, c] => do
+    let v ← Wire.build v
+    let c ← byte? c
+    some (v, c)
+  | _ => none
+
+instance [Wire T] [Semilattice T] : Wire (LWWReg T Nat) where
+  build s := do
+    let ops ← (splitOn s ';').mapM parseVC
+    match ops with
+    | [] => none
+    | (v, c) :: rest => some (rest.foldl (fun r vc => r.set vc.1 vc.2) (LWWReg.new v c))
+  render r := s!"{Wire.render r.value}@{r.clock.val}"
+
+instance [Wire V] [Semilattice V] : Wire (GMap Nat V) where
+  build s :=
+    if s == "-" then some GMap.empty else do
+      let es ← (splitOn s ';').mapM (fun e =>
+        match splitOn e '=' with
+        | [k, v] => do
+          let k ← byte? k
+          let v ← Wire.build v
+          some (k, v)
+        | _ => none)
+      some (es.foldl (fun m kv => m.insert kv.1 kv.2) GMap.empty)
+  render m := showList (m.entries.map fun kv => s!"{kv.1}={Wire.render kv.2}")
+
+instance : Wire (GSet Nat) where
+  build s :=
+    if s == "-" then some GSet.empty else do
+      let ks ← (splitOn s ';').mapM byte?
+      some (ks.foldl (fun m k => m.insert k) GSet.empty)
+  render m := showList (m.keys.map toString)
+
+/-- `+k=v@c` / `!k@c` -/
+def parseMapOp [Wire V] (s : String) : Option (Write Nat V Nat) :=
+  if s.startsWith "+" then
+    match splitOn (dropFirst s) '=' with
+    | [k, vc] => do
+      let k ← byte? k
+      let (v, c) ← parseVC vc
+      some ⟨k, some v, c⟩
+    | _ => none
+  else if s.startsWith "!" then
+    match splitOn (dropFirst s) '@' with
+    | [k, c] => do
+      let k ← byte? k
+      let c ← byte? c
+      some ⟨k, none, c⟩
+    | _ => none
+  else none
+
+instance [Wire V] [Semilattice V] : Wire (LWWMap Nat V Nat) where
+  build s :=
+    if s == "-" then some LWWMap.empty else do
+      let ops ← (splitOn s ';').mapM parseMapOp
+      some (ops.foldl LWWMap.apply LWWMap.empty)
+  render m := showList (m.inner.entries.filterMap fun kr =>
+    match kr.2.value with
+    | some v => some s!"{kr.1}={Wire.render v}@{kr.2.clock.val}"
+    | none => if kr.2.clock.val = 0 then none else some s!"{kr.1}=-@{kr.2.clock.val}")
+
+/-- `+k@c` / `!k@c` -/
+def parseSetOp (s : String) : Option (Bool × Nat × Nat) :=
+  if s.startsWith "+" || s.startsWith "!" then
+    match splitOn (dropFirst s) '@' with
+    | [k, c] => do
+      let k ← byte? k
+      let c ← byte? c
+      some (s.startsWith "+", k, c)
+    | _ => none
+  else none
+
+instance : Wire (LWWSet Nat Nat) where
+  build s :=
+    if s == "-" then some LWWSet.empty else do
+      let ops ← (splitOn s ';').mapM parseSetOp
+      some (ops.foldl (fun m op => if op.1 then m.insert op.2.1 op.2.2 else m.remove op.2.1 op.2.2) LWWSet.empty)
+  render m := showList (m.inner.inner.entries.filterMap fun kr =>
+    match kr.2.value with
+    | some _ => some s!"+{kr.1}@{kr.2.clock.val}"
+    | none => if kr.2.clock.val = 0 then none else some s!"!{kr.1}@{kr.2.clock.val}")
+
+def runLaws (α : Type) [Semilattice α] [DecidableEq α] [Wire α] (a b c : String) : String :=
+  match (Wire.build a : Option α), (Wire.build b : Option α), (Wire.build c : Option α) with
+  | some a, some b, some c =>
+    let ab := merge a b
+    let abc := merge ab c
+    let bits := [decide (a = b), decide (ab = merge b a), decide (abc = merge a (merge b c)),
+      decide (merge a a = a), decide (ab = a), decide (abc = ab)]
+    let r : α → String := Wire.render
+    s!"{r a} {r b} {r c} {r ab} {r abc} {joinWith "" (bits.map showBool)}"
+  | _, _, _ => "bad-op"
+
+def run (args : List String) : String :=
+  match args with
+  | [ty, a, b, c] =>
+    match ty with
+    | "max" => runLaws (MaxV Nat) a b c
+    | "min" => runLaws (MinV Nat) a b c
+    | "bool" => runLaws Bool a b c
+    | "unit" => runLaws Unit a b c
+    | "optmax" => runLaws (Option (MaxV Nat)) a b c
+    | "red" => runLaws (Redactable Nat) a b c
+    | "optred" => runLaws (Option (Redactable Nat)) a b c
+    | "regmax" => runLaws (LWWReg (MaxV Nat) Nat) a b c
+    | "regmin" => runLaws (LWWReg (MinV Nat) Nat) a b c
+    | "regred" => runLaws (LWWReg (Redactable Nat) Nat) a b c
+    | "regopt" => runLaws (LWWReg (Option (MaxV Nat)) Nat) a b c
+    | "gmap" => runLaws (GMap Nat (MaxV Nat)) a b c
+    | "gmapred" => runLaws (GMap Nat (Redactable Nat)) a b c
+    | "gmapreg" => runLaws (GMap Nat (LWWReg (Option (MaxV Nat)) Nat)) a b c
+    | "gset" => runLaws (GSet Nat) a b c
+    | "lwwmap" => runLaws (LWWMap Nat (MaxV Nat) Nat) a b c
+    | "lwwmapred" => runLaws (LWWMap Nat (Redactable Nat) Nat) a b c
+    | "lwwset" => runLaws (LWWSet Nat Nat) a b c
+    | _ => "bad-op"
+  | _ => "bad-op"
 
 end HeartwoodModel.Driver.C22
